@@ -111,10 +111,12 @@ PENDING = {}   # id -> reason (not_applicable)
 # round 8: additions to the technique text (appended)
 CLI = " + CliFlow.tla (command-line dataflow state machine, model-checked with 10 seeded plumbing slips rejected): TLC-generated option vectors replayed into the real mokapot.mokapot.main() with recording stand-ins for the stages, judged by CliFlowTrace.tla (the P: clauses of this property; other clauses are DRIFT)"
 LIVE = " + liveness of the implementation-shaped module(s) (PROPERTY Halts of FairSpec = Spec /\\ WF_vars(Next), <Module>_live.cfg)"
-EXTRA = {"C02": CLI + LIVE, "C03": CLI + LIVE, "C07": CLI + LIVE, "C08": CLI,
+ROLL = " + RollupTool.tla (the stand-alone rollup tool over histories of put / drop / roll operations in one directory, step by step: glob, own-root filter, levels, merge with per-level seen-sets, write; six seeded slips and the pinned tree's untranslated base-level word rejected by TLC): TLC-generated histories replayed into a real directory with the real mokapot.brew_rollup, every roll judged by RollupToolTrace.tla (relation RollOK of the model; the clauses owned by this property)"
+EXTRA = {"C02": CLI + LIVE, "C03": CLI + ROLL + LIVE, "C07": CLI + LIVE, "C08": CLI,
          "C12": " + ModelLife.tla (life cycle of a Model object: every fit / predict / save / load_model sequence, three seeded slips rejected): TLC-generated behaviours replayed into a real mokapot.Model, answers judged by ModelLifeTrace.tla" + LIVE}
 for _i in ("C01", "C09", "C10", "C11", "C13", "C14", "C15", "C16", "C17", "C18", "C19", "C20"):
     EXTRA[_i] = LIVE
+EXTRA["C09"] = ROLL + LIVE
 
 def main():
     props = [json.loads(l) for l in open(os.path.join(HERE, "properties.jsonl"))]
